@@ -233,6 +233,16 @@ class Gen(object):
                 if ea not in done:          # (two statements on one atom could contradict each other)
                     done.add(ea)
                     prog.append(("evidence", ea, r.random() < 0.6))
+            if r.random() < 0.2:
+                # positive evidence on a propositional atom with two proofs and on the single body literal of one of
+                # them (evidence propagation then meets a disjunction that must be true and already has a true child)
+                a1, a2 = self.body_atom(r.choice(prob_atoms), CONSTS), self.body_atom(r.choice(prob_atoms), CONSTS)
+                if a1 != a2 and a1 not in done and ("dd", ()) not in done:
+                    prog.append(("rule", ("dd", ()), [(True, a1)]))
+                    prog.append(("rule", ("dd", ()), [(True, a2)]))
+                    prog.append(("evidence", ("dd", ()), True))
+                    prog.append(("evidence", a1, True))
+                    prog.append(("query", a2))
         return prog
 
     def body_atom(self, pa, consts):
